@@ -192,7 +192,7 @@ func checkC17(c *Ctx) {
 			if i < len(slD.In.Params) {
 				ak := callerK.Key(a)
 				switch {
-				case strings.Contains(ak, posName+"("):
+				case isPosKey(ak, posName):
 					slEnv[slD.In.Params[i]] = polySym("pos")
 				case strings.HasSuffix(ak, kTree+"branchFactor"):
 					slEnv[slD.In.Params[i]] = polySym("B")
@@ -205,7 +205,7 @@ func checkC17(c *Ctx) {
 	} else {
 		facts := slD.Facts
 		lenK := func(k string) bool { return strings.HasPrefix(k, "builtin len(p0."+kTree+"treePosToID)") }
-		posK := func(k string) bool { return strings.Contains(k, posName+"(") }
+		posK := func(k string) bool { return isPosKey(k, posName) }
 		okKnown := hasCmp(facts, "!=", posK, is("c:-1"))
 		lowK := slD.Key(sl.Low)
 		okStart := hasCmp(facts, "<", is(lowK), lenK)
@@ -261,6 +261,39 @@ func checkC17(c *Ctx) {
 				}
 			})
 		}
+		if okBF && !okID {
+			// construct, then validate: every return of the constructor is reached only with the id found in the
+			// position table of the tree just built (whose table is the parameter)
+			allOK, n := true, 0
+			for _, r := range returnsOf(ns) {
+				if !fns.Reachable(r.Block()) {
+					continue
+				}
+				n++
+				facts := fns.At(r)
+				found := false
+				for _, e := range p.constructSites(namedType(p, "internal/tree", "Tree")) {
+					if e.Fn != ns || e.Alloc == nil {
+						continue
+					}
+					tbl := complitField(e.Alloc, "treePosToID")
+					if tbl == nil || fns.K.Key(tbl) != "p2" {
+						continue
+					}
+					ak := fns.K.Key(e.Alloc)
+					isIdx := func(k string) bool {
+						return strings.HasPrefix(k, "slices.Index[") && strings.Contains(k, "("+ak+"->hs/internal/tree.Tree.treePosToID, p0)")
+					}
+					if hasCmp(facts, "!=", isIdx, is("c:-1")) || hasCmp(facts, "<=", is("c:0"), isIdx) {
+						found = true
+					}
+				}
+				if !found {
+					allOK = false
+				}
+			}
+			okID = allOK && n > 0
+		}
 		c.Check(okBF && okID, "C17.3", "NewSimple: rejects branch factor < 2 and an unlisted replica", p.FuncPos(ns),
 			"a Tree is built only under 2 <= branchFactor and slices.Index(positions, id) != -1 (so the list is non-empty and Root() is defined)", "branch factor gate: "+boolStr(okBF)+", membership gate: "+boolStr(okID))
 	}
@@ -271,7 +304,7 @@ func checkC17(c *Ctx) {
 		return func(v ssa.Value) string {
 			s := k.Key(v)
 			switch {
-			case strings.Contains(s, posName+"("):
+			case isPosKey(s, posName):
 				return "pos"
 			case strings.HasSuffix(s, kTree+"branchFactor"):
 				return "B"
@@ -324,7 +357,7 @@ func checkC17(c *Ctx) {
 				ok = true
 			}
 			// the root is recognised before dividing
-			if hasCmp(d.Facts, "!=", func(k string) bool { return strings.Contains(k, posName+"(") }, is("c:0")) {
+			if hasCmp(d.Facts, "!=", func(k string) bool { return isPosKey(k, posName) }, is("c:0")) {
 				rootOK = true
 			}
 		}
@@ -692,4 +725,11 @@ func c17KauriUsesChildList(c *Ctx) {
 	if nSub == 0 || nUp == 0 {
 		c.Unresolved("C17.6", "Kauri.begin", "expected a Sub(children) call and an immediate SendContributionToParent below begin; found "+itoa(nSub)+" and "+itoa(nUp))
 	}
+}
+
+
+// isPosKey: k is (or contains) the position of a replica: a call of the position look-up helper, or -- when that
+// helper merely forwards, so that the Keyer names the call by what it forwards to -- slices.Index over the position table.
+func isPosKey(k, posName string) bool {
+	return strings.Contains(k, posName+"(") || strings.Contains(k, "slices.Index[") && strings.Contains(k, "hs/internal/tree.Tree.treePosToID, ")
 }
